@@ -517,16 +517,73 @@ def leftover_worlds(sc, seed, tier, stats):
     return viol
 
 
+def crash_sweep(sc, seed, stats, variant, base, src, tpl, opts, names, sha_old, sha_new, one_inode):
+    """kill the run `sy src dst <opts>` before EVERY mutating call: every name of `names` exists and holds its old or its new content,
+    keep.txt is intact, the source is untouched; the recovery run ends with the new content under every name, no working file
+    (and, if asked, all names on one inode)"""
+    viol = []
+    dst, log = base + "/dst", base + "/shim.log"
+    sha_keep = world.sha(tpl + "/keep.txt")
+    ssnap = world.snapshot(src)
+    env0 = dict(os.environ); env0.update(sc.env); env0.pop("RUST_LOG", None); env0["SY_VERIF_DELTA_THRESHOLD"] = str(ew.BIG)
+    cmd = [world.SY, src, dst] + opts + ["-q"]
+
+    def shim_run(at):
+        env = dict(env0); env.update({"LD_PRELOAD": SHIM, "SY_CRASH_ROOT": base, "SY_CRASH_LOG": log, "SY_CRASH_AT": str(at)})
+        if os.path.exists(log):
+            os.remove(log)
+        p = subprocess.run(cmd, env=env, cwd=sc.dir, stdout=subprocess.PIPE, stderr=subprocess.PIPE, timeout=120)
+        lines = [l for l in open(log, errors="replace")] if os.path.exists(log) else []
+        return p, sum(1 for l in lines if l[:1].isdigit()), any(l.startswith("KILLED") for l in lines), lines
+    fresh(tpl, dst)
+    p, M, _k, _l = shim_run(0)
+    if p.returncode != 0 or M == 0:
+        return [{"variant": variant, "why": "the uninterrupted reference run failed or made no call: rc=%s calls=%d %s" % (p.returncode, M, p.stderr.decode("utf-8", "replace")[-200:])}]
+    for k in range(1, M + 1):
+        fresh(tpl, dst)
+        p, _n, killed, lines = shim_run(k)
+        stats[variant.split("-")[0] + "_crash_points"] = stats.get(variant.split("-")[0] + "_crash_points", 0) + 1
+        if not killed:
+            continue
+        tag = {"variant": variant, "kill_before_call": k, "of": M, "seed": seed, "call": (lines[k - 1].strip() if len(lines) >= k else None), "cmd": cmd[3:]}
+        bad = []
+        if world.snapshot(src) != ssnap:
+            bad.append("the source changed")
+        for nme in names:
+            fp = dst + "/" + nme
+            if not os.path.isfile(fp) or os.path.islink(fp):
+                bad.append("%s does not exist as a regular file (it did before the run)" % nme)
+            elif world.sha(fp) not in (sha_old, sha_new):
+                bad.append("%s holds neither its old nor its new content" % nme)
+        if not os.path.isfile(dst + "/keep.txt") or world.sha(dst + "/keep.txt") != sha_keep:
+            bad.append("the bystander keep.txt is not intact")
+        if not bad:
+            q = subprocess.run(cmd, env=env0, cwd=sc.dir, stdout=subprocess.PIPE, stderr=subprocess.PIPE, timeout=120)
+            if q.returncode != 0:
+                bad.append("the recovery run failed: rc=%s %s" % (q.returncode, q.stderr.decode("utf-8", "replace")[-200:]))
+            else:
+                if any(not os.path.isfile(dst + "/" + nme) or world.sha(dst + "/" + nme) != sha_new for nme in names):
+                    bad.append("after the recovery run a name does not hold the source's bytes")
+                elif one_inode and len({os.stat(dst + "/" + nme).st_ino for nme in names}) != 1:
+                    bad.append("after the recovery run the names of the group are on %d inodes" % len({os.stat(dst + "/" + nme).st_ino for nme in names}))
+                left = [os.path.join(dp, x) for dp, _d, fs in os.walk(dst) for x in fs if x.endswith(".sy.tmp")]
+                if left:
+                    bad.append("working files left after the recovery run: %r" % left)
+        for b in bad:
+            viol.append(dict(tag, why=b))
+        if bad:
+            break
+    return viol
+
+
 def hardlink_crash_family(sc, seed, tier, stats):
-    """(seed C09-4) -H over a hard-linked pair at or above the gate whose content changed: each name is rebuilt through its own working
-    file and the pass after the transfers moves the names back onto one inode (link under the working name + rename).  Killed before
-    EVERY mutating call of such a run: each large name exists and holds its old or its new content, the bystander is intact, the
-    source is untouched; the recovery run ends with the new content under both names, on one inode, with no working file."""
+    """(seed C09-4) -H over a hard-linked group at or above the gate whose content changed: each name is rebuilt through its own working
+    file and the pass after the transfers moves the names back onto one inode (link under the working name + rename)."""
     viol = []
     for wi in range(1 if tier == "quick" else 4):
         r = vlib.rng_for(seed, "C09-hl%d" % wi)
         base = os.path.join(sc.dir, "hl%d" % wi)
-        src, tpl, dst, log = base + "/src", base + "/tpl", base + "/dst", base + "/shim.log"
+        src, tpl = base + "/src", base + "/tpl"
         os.makedirs(src); os.makedirs(tpl)
         new = r.randbytes(ew.BIG + 20000 + r.randrange(0, 5000))
         old = similar(new, r)
@@ -541,57 +598,37 @@ def hardlink_crash_family(sc, seed, tier, stats):
                 f.write(b"bystander")
             os.utime(root + "/keep.txt", ns=(ew.T0NS + 700 * NS,) * 2)
         world.sync_fs()
-        sha_new, sha_old, sha_keep = world.sha(src + "/a.bin"), world.sha(tpl + "/a.bin"), world.sha(tpl + "/keep.txt")
-        ssnap = world.snapshot(src)
-        env0 = dict(os.environ); env0.update(sc.env); env0.pop("RUST_LOG", None); env0["SY_VERIF_DELTA_THRESHOLD"] = str(ew.BIG)
-        cmd = [world.SY, src, dst, "-H", "-j%d" % (1 if wi % 2 == 0 else 2), "-q"]
+        viol += crash_sweep(sc, seed, stats, "hardlink-crash-%d" % wi, base, src, tpl, ["-H", "-j%d" % (1 if wi % 2 == 0 else 2)], names,
+                            world.sha(tpl + "/a.bin"), world.sha(src + "/a.bin"), True)
+        shutil.rmtree(base, ignore_errors=True)
+    return viol
 
-        def shim_run(at):
-            env = dict(env0); env.update({"LD_PRELOAD": SHIM, "SY_CRASH_ROOT": base, "SY_CRASH_LOG": log, "SY_CRASH_AT": str(at)})
-            if os.path.exists(log):
-                os.remove(log)
-            p = subprocess.run(cmd, env=env, cwd=sc.dir, stdout=subprocess.PIPE, stderr=subprocess.PIPE, timeout=120)
-            lines = [l for l in open(log, errors="replace")] if os.path.exists(log) else []
-            return p, sum(1 for l in lines if l[:1].isdigit()), any(l.startswith("KILLED") for l in lines), lines
-        fresh(tpl, dst)
-        p, M, _k, _l = shim_run(0)
-        if p.returncode != 0 or M == 0:
-            viol.append({"variant": "hardlink-crash-%d" % wi, "why": "the uninterrupted -H reference run failed or made no call: rc=%s calls=%d %s" % (p.returncode, M, p.stderr.decode("utf-8", "replace")[-200:])})
-            continue
-        for k in range(1, M + 1):
-            fresh(tpl, dst)
-            p, _n, killed, lines = shim_run(k)
-            stats["hardlink_crash_points"] = stats.get("hardlink_crash_points", 0) + 1
-            if not killed:
-                continue
-            tag = {"variant": "hardlink-crash-%d" % wi, "kill_before_call": k, "of": M, "seed": seed, "call": (lines[k - 1].strip() if len(lines) >= k else None), "cmd": cmd[3:]}
-            bad = []
-            if world.snapshot(src) != ssnap:
-                bad.append("the source changed")
-            for nme in names:
-                fp = dst + "/" + nme
-                if not os.path.isfile(fp):
-                    bad.append("%s does not exist (it held %d bytes before the run)" % (nme, len(old)))
-                elif world.sha(fp) not in (sha_old, sha_new):
-                    bad.append("%s holds neither its old nor its new content" % nme)
-            if not os.path.isfile(dst + "/keep.txt") or world.sha(dst + "/keep.txt") != sha_keep:
-                bad.append("the bystander keep.txt is not intact")
-            if not bad:
-                q = subprocess.run(cmd, env=env0, cwd=sc.dir, stdout=subprocess.PIPE, stderr=subprocess.PIPE, timeout=120)
-                if q.returncode != 0:
-                    bad.append("the recovery run failed: rc=%s %s" % (q.returncode, q.stderr.decode("utf-8", "replace")[-200:]))
-                else:
-                    if any(not os.path.isfile(dst + "/" + nme) or world.sha(dst + "/" + nme) != sha_new for nme in names):
-                        bad.append("after the recovery run a name of the group does not hold the source's bytes")
-                    elif len({os.stat(dst + "/" + nme).st_ino for nme in names}) != 1:
-                        bad.append("after the recovery run the names of the group are on %d inodes" % len({os.stat(dst + "/" + nme).st_ino for nme in names}))
-                    left = [x for x in os.listdir(dst) if x.endswith(".sy.tmp")]
-                    if left:
-                        bad.append("working files left after the recovery run: %r" % left)
-            for b in bad:
-                viol.append(dict(tag, why=b))
-            if bad:
-                break
+
+def follow_crash_family(sc, seed, tier, stats):
+    """(66e379c) --links follow over a regular file at or above the gate that sits in the link's place: it is an existing large
+    destination being updated -- old or new at every kill point (it used to be truncated and rewritten where it was)"""
+    viol = []
+    for wi in range(1 if tier == "quick" else 3):
+        r = vlib.rng_for(seed, "C09-follow%d" % wi)
+        base = os.path.join(sc.dir, "fw%d" % wi)
+        src, tpl = base + "/src", base + "/tpl"
+        os.makedirs(src + "/real"); os.makedirs(tpl + "/real")
+        new = r.randbytes(ew.BIG + 30000 + r.randrange(0, 5000))
+        old = similar(new, r) if wi % 2 == 0 else r.randbytes(ew.BIG + 100)
+        for root in (src, tpl):
+            with open(root + "/real/big.bin", "wb") as f:
+                f.write(new); f.flush(); os.fsync(f.fileno())
+            os.utime(root + "/real/big.bin", ns=(ew.T0NS + 1005 * NS,) * 2)
+            with open(root + "/keep.txt", "wb") as f:
+                f.write(b"bystander")
+            os.utime(root + "/keep.txt", ns=(ew.T0NS + 700 * NS,) * 2)
+        os.symlink("real/big.bin", src + "/link.bin")
+        with open(tpl + "/link.bin", "wb") as f:
+            f.write(old); f.flush(); os.fsync(f.fileno())
+        os.utime(tpl + "/link.bin", ns=(ew.T0NS + 800 * NS,) * 2)
+        world.sync_fs()
+        viol += crash_sweep(sc, seed, stats, "follow-crash-%d" % wi, base, src, tpl, ["--links", "follow", "-j1"], ["link.bin"],
+                            world.sha(tpl + "/link.bin"), world.sha(src + "/real/big.bin"), False)
         shutil.rmtree(base, ignore_errors=True)
     return viol
 
@@ -616,7 +653,7 @@ def run(tier, seed):
             for x in vv:
                 x["seed"] = seed
             viol += vv; diffs += dd
-        left_viol = leftover_worlds(sc, seed, tier, stats) + hardlink_crash_family(sc, seed, tier, stats)
+        left_viol = leftover_worlds(sc, seed, tier, stats) + hardlink_crash_family(sc, seed, tier, stats) + follow_crash_family(sc, seed, tier, stats)
         # with several workers the attribution of logged calls to executed prefixes is a heuristic (a thread may have logged a
         # call it never got to execute): a difference seen there counts only if it shows up again at the same kill point
         softv = [x for x in viol if x.get("flags", {}).get("j", 1) > 1 and "k" in x and "not being written" in x.get("why", "")]
